@@ -135,10 +135,11 @@ type vpUpReq struct {
 }
 
 type vpUpstream struct {
-	id  string
-	srv *httptest.Server
-	mu  sync.Mutex
-	log []vpUpReq
+	id    string
+	srv   *httptest.Server
+	mu    sync.Mutex
+	log   []vpUpReq
+	byRid map[string][]vpUpReq
 	// response to give
 	respStatus int
 	respHeader http.Header
@@ -146,11 +147,15 @@ type vpUpstream struct {
 }
 
 func vpNewUpstream(id string) *vpUpstream {
-	u := &vpUpstream{id: id, respStatus: 200, respBody: []byte("upstream:" + id)}
+	u := &vpUpstream{id: id, respStatus: 200, respBody: []byte("upstream:" + id), byRid: map[string][]vpUpReq{}}
 	u.srv = httptest.NewServer(http.HandlerFunc(func(rw http.ResponseWriter, r *http.Request) {
 		b, _ := io.ReadAll(r.Body)
 		u.mu.Lock()
-		u.log = append(u.log, vpUpReq{Seq: atomic.AddInt64(&vpUpSeq, 1), Upstream: id, Method: r.Method, Target: r.RequestURI, Host: r.Host, Header: r.Header.Clone(), Body: b})
+		rec := vpUpReq{Seq: atomic.AddInt64(&vpUpSeq, 1), Upstream: id, Method: r.Method, Target: r.RequestURI, Host: r.Host, Header: r.Header.Clone(), Body: b}
+		u.log = append(u.log, rec)
+		if rid := r.Header.Get("X-Vp-Rid"); rid != "" {
+			u.byRid[rid] = append(u.byRid[rid], rec)
+		}
 		st, hd, body := u.respStatus, u.respHeader, u.respBody
 		u.mu.Unlock()
 		for k, vs := range hd {
@@ -673,6 +678,10 @@ func (w *vpWorld) do(r vpReq) (out *vpResp) {
 	}
 	sb.WriteString(r.Method + " " + target + " HTTP/1.1\r\n")
 	sb.WriteString("Host: " + r.Host + "\r\n")
+	// a per-request id lets the recording upstreams attribute what they receive to this request even when
+	// other requests run concurrently against the same proxy
+	rid := fmt.Sprintf("r%d", atomic.AddInt64(&vpRidSeq, 1))
+	sb.WriteString("X-Vp-Rid: " + rid + "\r\n")
 	for _, h := range r.Header {
 		sb.WriteString(h[0] + ": " + h[1] + "\r\n")
 	}
@@ -712,12 +721,24 @@ func (w *vpWorld) do(r vpReq) (out *vpResp) {
 	out.Body, _ = io.ReadAll(res.Body)
 	out.Cookies = res.Cookies()
 	out.Location = res.Header.Get("Location")
-	out.UpHits = w.upstreamTotal() - before
-	if out.UpHits > 0 {
-		out.UpLast = w.lastUpstreamReq()
+	_ = before
+	for _, id := range w.upOrder {
+		u := w.ups[id]
+		u.mu.Lock()
+		for _, rec := range u.byRid[rid] {
+			out.UpHits++
+			rc := rec
+			if out.UpLast == nil || rc.Seq > out.UpLast.Seq {
+				out.UpLast = &rc
+			}
+		}
+		delete(u.byRid, rid)
+		u.mu.Unlock()
 	}
 	return out
 }
+
+var vpRidSeq int64
 
 var vpUpSeq int64
 
